@@ -562,13 +562,17 @@ class Prover:
         if not live and must_reach:
             self.rec(name, "vacuous", detail="no feasible path reaches the assertions")
             return
+        n_inf = 0
         for pi, p in enumerate(live):
             pname = name if len(live) == 1 else "%s#p%d" % (name, pi)
             if p.status == "raise":
                 self._raised(pname, p, sc, params, expect_raise)
                 continue
             out = p.result
-            self._discharge(pname, p, out, sc, params)
+            if self._discharge(pname, p, out, sc, params) == "infeasible":
+                n_inf += 1
+        if live and n_inf == len(live) and must_reach:
+            self.rec(name, "vacuous", detail="every explored path is infeasible")
         # translator validation on this scenario
         if validate and live:
             self._validate(name, sc, params, live, validate)
@@ -605,8 +609,9 @@ class Prover:
         all_terms = list(pc)
         r, s, dt = self._check(pc, timeout=min(self.timeout, 10000))
         if r == "unsat":
-            self.rec(pname, "vacuous", detail="path condition unsatisfiable")
-            return
+            # an infeasible path the explorer could not prune: nothing to prove on it
+            self.infeasible_paths = getattr(self, "infeasible_paths", 0) + 1
+            return "infeasible"
         reach = r
         for kind, k, a, b in goals:
             oname = "%s/%s" % (pname, k)
